@@ -891,6 +891,8 @@ def main(argv=None):
     ap.add_argument('--no-alg', action='store_true', help='skip the AlgIR items')
     ap.add_argument('--no-limb', action='store_true', help='skip the serial LimbIR items')
     ap.add_argument('--no-vec', action='store_true', help='skip the vector backends')
+    ap.add_argument('--no-k', action='store_true', help='skip the kernel-call programs')
+    ap.add_argument('--n-k', type=int, default=300, help='random inputs per kernel-call program')
     ap.add_argument('--n-vec', type=int, default=1000, help='random inputs per vector item')
     ap.add_argument('--cpu', action='store_true', help='cross-check the vector items against the CPU (Rust driver)')
     ap.add_argument('--n-cpu', type=int, default=600, help='cases per op for --cpu')
@@ -942,6 +944,9 @@ def main(argv=None):
     if not args.no_vec:
         import selfcheck_vec
         fails += selfcheck_vec.run_vec(args.gen, args.n_vec, args.seed, only, args.cpu, args.n_cpu)
+    if not args.no_k:
+        import selfcheck_k
+        fails += selfcheck_k.run_k(args.gen, args.n_k, args.seed, only)
     print('selfcheck: %s (%d failing), %.1f s' % ('PASS' if fails == 0 else 'FAIL', fails, time.time() - t0))
     return 0 if fails == 0 else 1
 
